@@ -27,9 +27,11 @@ Main results
 * `C11_world_perms_stable`, `C11_world_join_grants`   the permissions of a connection change only when it joins (to what
                                      Description.GetPermission grants), when its own action loop handles a permission
                                      change, or to nothing;
-* `C11_world_change_applied`, `C11_world_revocation_partial`, `C11_world_revocation_closes_streams`
+* `C11_world_change_applied`, `C11_world_revocation` (`_run`), `C11_world_revocation_closes_streams`
                                      the permission-change action does what the moderator asked, on the connection's
-                                     own list only; after the loss of `present` the streams are closed;
+                                     own list only; with the repair `removeAll` a removed permission is gone however
+                                     often it occurred (`C11_world_revocation_partial`: what holds without that repair);
+                                     after the loss of `present` the streams are closed;
 * `PInv_init`, `PInv_addCfg`, `PInv_addClient`, `PInv_addToken` (and the same for `HInv`)   the invariants hold
                                      initially and are kept by the creation of group descriptions, connections, tokens;
                                      `pk_flags`, `pk_hist`, `pk_addup`, `mockJoin_pk`, `releaseParked_pk`: and by the other
@@ -37,8 +39,8 @@ Main results
 False without the repairs, as runs of the world model checked by `decide`:
 * `C11_world_false_refused` (P10), `C11_world_false_redirect` (P18), `C11_world_false_stale_change` (P19),
   `C11_world_unshared_false_token` (tokClone);
-and false as stated in the property text even with every repair:
-* `C11_world_revocation_false_duplicate`   a permission that occurs twice in a client's list survives its removal.
+* `C11_world_revocation_false_duplicate` (removeAll, 391656f)   before that repair a permission that occurred twice in a
+  client's list survived its removal (`C11_world_revocation_duplicate_fixed`: the same run on today's code).
 -/
 namespace Galene.Sig
 
@@ -553,27 +555,39 @@ theorem releaseParked_pk (w : World) (id : String) (k : Nat) : (releaseParked w 
 
 /-! ### revocation -/
 
+/-- the repair flags do not change along a run -/
+theorem C11_world_fix (steps : List WStep) (w0 : World) (h0 : PInv w0) : (wrun w0 steps).fix = w0.fix := by
+  induction steps generalizing w0 with
+  | nil => rfl
+  | cons s r ih =>
+    simp only [wrun, List.foldl_cons]
+    have := ih _ (PInv_wstep w0 s h0)
+    simp only [wrun] at this
+    rw [this]
+    exact (wstep_step w0 s h0.p10 h0.p18 h0.p19).fix
+
 /-- **C11_world_change_applied.**  Let `w` satisfy the invariants, and let the oldest action queued for
 connection `i`, a member of group `g`, be the permission change `kind` (what an operator's
 `useraction` op/unop/present/unpresent/shutup/unshutup queues for its target).  After the iteration of
 `i`'s action loop that handles it, the permissions `i` holds are exactly the old list with the edit
-of `kind` applied (`permEditL`: `addnew`/`remove` of webclient.go on a plain list) — although the
-code edits a shared-capable backing array in place — and the permissions of every other connection are
-what they were. -/
+of `kind` applied (`permEditL`: `addnew`/`remove` of webclient.go on a plain list; `remove` deletes
+every occurrence if the repair `removeAll` is in, else the first one) — although the code edits a
+shared-capable backing array in place — and the permissions of every other connection are what they
+were. -/
 theorem C11_world_change_applied (w : World) (hi : PInv w) (hh : HInv w) (i : Nat) (c : Client) (kind : String)
     (rest : List Action) (g : String) (hc : w.clients[i]? = some c) (hq : c.queue = .changePerm kind :: rest)
     (hg : c.group = some g) (l' : List String)
-    (hl : permEditL (w.permsOf i) ((w.group? g).any (fun g => g.cfg.allowRecording)) kind = some l') :
+    (hl : permEditL w.fix.removeAll (w.permsOf i) ((w.group? g).any (fun g => g.cfg.allowRecording)) kind = some l') :
     (stepAction w i).1.permsOf i = l' ∧ ∀ j, j ≠ i → (stepAction w i).1.permsOf j = w.permsOf j := by
   refine ⟨?_, fun j hj => C11_world_perms_frame w hi hh (.act i) j hj⟩
   have hpo : w.permsOf i = w.heap.get c.perms := by
     unfold World.permsOf World.client?; rw [hc]
   rw [hpo] at hl
   have hw : w.heap.WF c.perms := hh.wf i c.group c.perms (pk_cl_some hc)
-  have hsome : (permEdit w.heap c.perms ((w.group? g).any (fun g => g.cfg.allowRecording)) kind).isSome = true := by
+  have hsome : (permEdit w.fix w.heap c.perms ((w.group? g).any (fun g => g.cfg.allowRecording)) kind).isSome = true := by
     rw [permEdit_isSome, hl]; rfl
   obtain ⟨r, hr⟩ := Option.isSome_iff_exists.mp hsome
-  have hget := permEdit_get _ _ _ _ r hw hr
+  have hget := permEdit_get _ _ _ _ _ r hw hr
   rw [hl] at hget
   rw [permsOf_pk, stepAction_changePerm_pk w i c kind rest g hc hq hg r hr]
   have hcl : (w.pk.setPerms i r.1 r.2).cl i = some (some g, r.2) := by
@@ -583,17 +597,59 @@ theorem C11_world_change_applied (w : World) (hi : PInv w) (hh : HInv w) (i : Na
   rw [hcl]
   exact (Option.some.inj hget).symm
 
-/-- **C11_world_revocation_partial.**  The full statement asked for is: *in every world satisfying the
-invariants, after `stepAction` has handled a permission change that removes permission `p` from
-connection `i`, `p ∉ permsOf i`.*  It is **false** (`C11_world_revocation_false_duplicate`: webclient.go's
-`remove` deletes the first occurrence only and nothing keeps permission lists duplicate-free).  Proved
-here, with the added hypothesis that `p` occurs at most once in the connection's current list: in the
-situation of `C11_world_change_applied`, if the action removes `p` (`unop` removes `op` and `record`,
-`unpresent` removes `present`, `shutup` removes `message`), then after the iteration of the action loop
-the connection's permissions are a sublist of the old ones, and **if `p` occurred at most once** the
-connection no longer holds `p` — so (`conn_perms_eq`, `C11_guard`) every later message of the
-connection is judged without it.  (Without the hypothesis: exactly one occurrence is erased,
-`C11_world_change_applied`.) -/
+/-- **C11_world_revocation.**  (The full statement; true of today's code since the repair `removeAll`,
+391656f.)  Let `w` satisfy the invariants and have the repair `removeAll` (webclient.go's `remove` deletes
+every occurrence), and let the oldest action queued for connection `i`, a member of group `g`, be a
+permission change that removes permission `p` (`unop` removes `op` and `record`, `unpresent` removes
+`present`, `shutup` removes `message`).  After the iteration of `i`'s action loop that handles it, the
+connection does not hold `p` — however often `p` occurred in its list — and its permissions are a
+sublist of the old ones; so (`conn_perms_eq`, `C11_guard`) every later message of the connection is
+judged without `p`.  Without the repair the statement is false:
+`C11_world_revocation_false_duplicate`. -/
+theorem C11_world_revocation (w : World) (hi : PInv w) (hh : HInv w) (hra : w.fix.removeAll = true) (i : Nat)
+    (c : Client) (kind : String) (rest : List Action) (g : String) (hc : w.clients[i]? = some c)
+    (hq : c.queue = .changePerm kind :: rest) (hg : c.group = some g) (p : String)
+    (hk : (kind = "unop" ∧ (p = "op" ∨ p = "record")) ∨ (kind = "unpresent" ∧ p = "present") ∨
+      (kind = "shutup" ∧ p = "message")) :
+    p ∉ (stepAction w i).1.permsOf i ∧ ((stepAction w i).1.permsOf i).Sublist (w.permsOf i) := by
+  have key : ∀ l', permEditL true (w.permsOf i) ((w.group? g).any (fun g => g.cfg.allowRecording)) kind = some l' →
+      (stepAction w i).1.permsOf i = l' :=
+    fun l' hl => (C11_world_change_applied w hi hh i c kind rest g hc hq hg l' (by rw [hra]; exact hl)).1
+  have hrm : ∀ (v : String) (l : List String), removeL true v l = l.filter (· ≠ v) := fun v l => rfl
+  rcases hk with ⟨rfl, hp⟩ | ⟨rfl, rfl⟩ | ⟨rfl, rfl⟩
+  · rw [key _ rfl, hrm, hrm]
+    refine ⟨?_, (List.filter_sublist).trans List.filter_sublist⟩
+    intro hm
+    rcases hp with rfl | rfl
+    · have := (List.mem_filter.mp (List.mem_filter.mp hm).1).2
+      simp at this
+    · have := (List.mem_filter.mp hm).2
+      simp at this
+  · rw [key _ rfl, hrm]
+    exact ⟨fun hm => by simpa using (List.mem_filter.mp hm).2, List.filter_sublist⟩
+  · rw [key _ rfl, hrm]
+    exact ⟨fun hm => by simpa using (List.mem_filter.mp hm).2, List.filter_sublist⟩
+
+/-- **C11_world_revocation in every reachable world**: the same for any world reached from one that
+satisfies the invariants and has the repair `removeAll` (`currentFixes` has it), by any schedule of
+messages, action-loop iterations and drops. -/
+theorem C11_world_revocation_run (w0 : World) (h0 : PInv w0) (hh0 : HInv w0) (hra : w0.fix.removeAll = true)
+    (steps : List WStep) (i : Nat) (c : Client) (kind : String) (rest : List Action) (g : String)
+    (hc : (wrun w0 steps).clients[i]? = some c) (hq : c.queue = .changePerm kind :: rest) (hg : c.group = some g)
+    (p : String)
+    (hk : (kind = "unop" ∧ (p = "op" ∨ p = "record")) ∨ (kind = "unpresent" ∧ p = "present") ∨
+      (kind = "shutup" ∧ p = "message")) :
+    p ∉ (stepAction (wrun w0 steps) i).1.permsOf i :=
+  (C11_world_revocation _ (C11_world_heap_inv steps w0 h0 hh0).1 (C11_world_heap_inv steps w0 h0 hh0).2
+    (by rw [C11_world_fix steps w0 h0]; exact hra) i c kind rest g hc hq hg p hk).1
+
+/-- **C11_world_revocation_partial** (what holds **whether or not** the repair `removeAll` is in, in
+particular of the code before 391656f, where the full statement is false:
+`C11_world_revocation_false_duplicate`).  Added hypothesis: `p` occurs at most once in the connection's
+current list.  In the situation of `C11_world_change_applied`, if the action removes `p`, then after the
+iteration of the action loop the connection's permissions are a sublist of the old ones, and if `p`
+occurred at most once the connection no longer holds `p`.  (Before the repair exactly one occurrence
+is erased: `C11_world_change_applied` with `removeL false = List.erase`.) -/
 theorem C11_world_revocation_partial (w : World) (hi : PInv w) (hh : HInv w) (i : Nat) (c : Client) (kind : String)
     (rest : List Action) (g : String) (hc : w.clients[i]? = some c) (hq : c.queue = .changePerm kind :: rest)
     (hg : c.group = some g) (p : String)
@@ -601,20 +657,26 @@ theorem C11_world_revocation_partial (w : World) (hi : PInv w) (hh : HInv w) (i 
       (kind = "shutup" ∧ p = "message")) :
     ((stepAction w i).1.permsOf i).Sublist (w.permsOf i) ∧
     ((w.permsOf i).count p ≤ 1 → p ∉ (stepAction w i).1.permsOf i) := by
-  have key : ∀ l', permEditL (w.permsOf i) ((w.group? g).any (fun g => g.cfg.allowRecording)) kind = some l' →
-      (stepAction w i).1.permsOf i = l' :=
-    fun l' hl => (C11_world_change_applied w hi hh i c kind rest g hc hq hg l' hl).1
-  have hnot : ∀ (l : List String) (q : String), l.count q = 0 → q ∉ l := fun l q h => List.count_eq_zero.mp h
-  rcases hk with ⟨rfl, hp⟩ | ⟨rfl, rfl⟩ | ⟨rfl, rfl⟩
-  · rw [key _ rfl]
-    refine ⟨(List.erase_sublist.trans List.erase_sublist), fun hcnt => hnot _ _ ?_⟩
-    rcases hp with rfl | rfl
-    · rw [List.count_erase_of_ne (by decide), List.count_erase_self]; omega
-    · rw [List.count_erase_self, List.count_erase_of_ne (by decide)]; omega
-  · rw [key _ rfl]
-    exact ⟨List.erase_sublist, fun hcnt => hnot _ _ (by rw [List.count_erase_self]; omega)⟩
-  · rw [key _ rfl]
-    exact ⟨List.erase_sublist, fun hcnt => hnot _ _ (by rw [List.count_erase_self]; omega)⟩
+  cases hra : w.fix.removeAll with
+  | true =>
+    obtain ⟨h1, h2⟩ := C11_world_revocation w hi hh hra i c kind rest g hc hq hg p hk
+    exact ⟨h2, fun _ => h1⟩
+  | false =>
+    have key : ∀ l', permEditL false (w.permsOf i) ((w.group? g).any (fun g => g.cfg.allowRecording)) kind = some l' →
+        (stepAction w i).1.permsOf i = l' :=
+      fun l' hl => (C11_world_change_applied w hi hh i c kind rest g hc hq hg l' (by rw [hra]; exact hl)).1
+    have hrm : ∀ (v : String) (l : List String), removeL false v l = l.erase v := fun v l => rfl
+    have hnot : ∀ (l : List String) (q : String), l.count q = 0 → q ∉ l := fun l q h => List.count_eq_zero.mp h
+    rcases hk with ⟨rfl, hp⟩ | ⟨rfl, rfl⟩ | ⟨rfl, rfl⟩
+    · rw [key _ rfl, hrm, hrm]
+      refine ⟨(List.erase_sublist.trans List.erase_sublist), fun hcnt => hnot _ _ ?_⟩
+      rcases hp with rfl | rfl
+      · rw [List.count_erase_of_ne (by decide), List.count_erase_self]; omega
+      · rw [List.count_erase_self, List.count_erase_of_ne (by decide)]; omega
+    · rw [key _ rfl, hrm]
+      exact ⟨List.erase_sublist, fun hcnt => hnot _ _ (by rw [List.count_erase_self]; omega)⟩
+    · rw [key _ rfl, hrm]
+      exact ⟨List.erase_sublist, fun hcnt => hnot _ _ (by rw [List.count_erase_self]; omega)⟩
 
 /-- **C11_world_revocation_closes_streams.**  When the action loop of a member that does not hold
 `present` handles the `permChanged` action (which every permission change queues behind itself), all
@@ -712,22 +774,37 @@ example :
     (w.clients[1]?).map (·.perms.arr) ≠ (w.clients[2]?).map (·.perms.arr) ∧
       w.permsOf 1 = ["present", "op"] ∧ w.permsOf 2 = ["present", "message"] := by decide
 
-/-- **C11_world_revocation_false_duplicate** (every repair in; within the step language).  The
-property text's "a revoked permission is enforced from the moment the affected client has been
-notified" is false as stated: webclient.go's `remove` deletes the **first** occurrence only, and nothing
-removes duplicates from a permission list.  alice (who holds `present` and `token`) mints a token
+/-- the run of the duplicate-permission defect: alice (who holds `present` and `token`) mints a token
 whose list is `present, present`; tim joins with it; alice revokes `present` (`unpresent`); tim's action
-loop handles the change and the notification — and tim still holds `present`. -/
+loop handles the change, the notification and the announcement -/
+def dupRun : List WStep :=
+  [.msg 0 (joinAs "alice"), .msg 0 (mkTokMsg ["present", "present"]), .msg 1 (joinWith "tim" "R1"),
+   .msg 0 (modMsg "unpresent" "c1"), .act 1, .act 1, .act 1, .act 1, .act 1, .act 1]
+
+/-- **C11_world_revocation_false_duplicate** (the code before 391656f: every repair in except
+`removeAll`; within the step language).  Without `removeAll`, "a revoked permission is enforced from the
+moment the affected client has been notified" is false: webclient.go's `remove` deleted the **first**
+occurrence only, and nothing removes duplicates from a permission list.  After `dupRun` tim still holds
+`present`, and that is what he and the others are told. -/
 theorem C11_world_revocation_false_duplicate :
-    let w := wrun (cxW currentFixes)
-      [.msg 0 (joinAs "alice"), .msg 0 (mkTokMsg ["present", "present"]), .msg 1 (joinWith "tim" "R1"),
-       .msg 0 (modMsg "unpresent" "c1"), .act 1, .act 1, .act 1, .act 1, .act 1, .act 1]
+    let w := wrun (cxW { currentFixes with removeAll := false }) dupRun
     (w.clients[1]?).map (·.group) = some (some "g1") ∧ (w.clients[1]?).map (·.queue) = some [] ∧
       w.permsOf 1 = ["present"] ∧
       (written w 1).map (fun m => (m.type, m.kind, m.perms)) =
         [("joined", "join", ["present", "present"]), ("user", "add", ["present", "present"]),
          ("user", "add", ["op", "present", "message", "caption", "token"]),
          ("joined", "change", ["present"]), ("user", "change", ["present"])] := by
+  decide
+
+/-- the same run on today's code (`remove` deletes every occurrence): tim holds nothing -/
+theorem C11_world_revocation_duplicate_fixed :
+    let w := wrun (cxW currentFixes) dupRun
+    (w.clients[1]?).map (·.group) = some (some "g1") ∧ (w.clients[1]?).map (·.queue) = some [] ∧
+      w.permsOf 1 = [] ∧
+      (written w 1).map (fun m => (m.type, m.kind, m.perms)) =
+        [("joined", "join", ["present", "present"]), ("user", "add", ["present", "present"]),
+         ("user", "add", ["op", "present", "message", "caption", "token"]),
+         ("joined", "change", []), ("user", "change", [])] := by
   decide
 
 /-! ### non-vacuity
@@ -816,6 +893,25 @@ example : "present" ∉ (stepAction exW2 1).1.permsOf 1 := by
     simp only [Option.map_some, Option.some.injEq, Prod.mk.injEq] at h
     exact (C11_world_revocation_partial exW2 exW2_inv.1 exW2_inv.2 1 c "unpresent" [] "g1" hc h.2 h.1 "present"
       (Or.inr (Or.inl ⟨rfl, rfl⟩))).2 (by decide)
+
+/-- `C11_world_revocation_run` applied to a list **with duplicates**: in the run of the former defect, at
+the point where tim's action loop has reached the change, tim holds `present` twice; after the next
+iteration he does not hold it -/
+example :
+    ((wrun (cxW currentFixes) (dupRun.take 7)).clients[1]?).map (fun c => (c.group, c.queue)) =
+      some (some "g1", [.changePerm "unpresent"]) ∧
+    (wrun (cxW currentFixes) (dupRun.take 7)).permsOf 1 = ["present", "present"] := by decide
+
+example : "present" ∉ (stepAction (wrun (cxW currentFixes) (dupRun.take 7)) 1).1.permsOf 1 := by
+  have h : ((wrun (cxW currentFixes) (dupRun.take 7)).clients[1]?).map (fun c => (c.group, c.queue)) =
+      some (some "g1", [.changePerm "unpresent"]) := by decide
+  cases hc : (wrun (cxW currentFixes) (dupRun.take 7)).clients[1]? with
+  | none => rw [hc] at h; cases h
+  | some c =>
+    rw [hc] at h
+    simp only [Option.map_some, Option.some.injEq, Prod.mk.injEq] at h
+    exact C11_world_revocation_run (cxW currentFixes) cx_init.1 cx_init.2 rfl (dupRun.take 7) 1 c "unpresent" [] "g1"
+      hc h.2 h.1 "present" (Or.inr (Or.inl ⟨rfl, rfl⟩))
 
 /-- the hypotheses of `C11_world_revocation_closes_streams` are satisfiable (the stream is put there by a
 **copy** of the engine's op `addup`; the model does not carry out SDP negotiations), and its conclusion
